@@ -380,6 +380,80 @@ class Inliner(object):
         self.counter += 1
         return '_inl_%s_%d' % (name.strip('_'), self.counter)
 
+    def desugar_flag(self, stmt):
+        """NAME = any(E for x in IT)  ->  NAME = False
+                                           for x in IT: if E: NAME = True; break
+        (all: dually).  `if any(...)` / `if not all(...)` is first hoisted
+        into a fresh flag."""
+        pre = []
+        if isinstance(stmt, ast.If):
+            test = stmt.test
+            neg = False
+            if isinstance(test, ast.UnaryOp) and isinstance(test.op,
+                                                            ast.Not):
+                test, neg = test.operand, True
+            if not self._is_quantifier(test):
+                return None
+            flag = self._fresh(test.func.id)
+            assign = ast.copy_location(ast.Assign(
+                targets=[ast.Name(id=flag, ctx=ast.Store())], value=test,
+                lineno=stmt.lineno), stmt)
+            newtest = ast.Name(id=flag, ctx=ast.Load())
+            if neg:
+                newtest = ast.UnaryOp(op=ast.Not(), operand=newtest)
+            stmt.test = ast.copy_location(newtest, test)
+            ast.fix_missing_locations(stmt.test)
+            parts = self.desugar_flag(assign)
+            if parts is None:
+                stmt.test = test if not neg else ast.UnaryOp(
+                    op=ast.Not(), operand=test)
+                return None
+            return parts + [stmt]
+        if not (isinstance(stmt, ast.Assign) and len(stmt.targets) == 1 and
+                isinstance(stmt.targets[0], ast.Name) and
+                self._is_quantifier(stmt.value)):
+            return None
+        call = stmt.value
+        comp = call.args[0]
+        gen = comp.generators[0]
+        names = set(n.id for n in ast.walk(gen.target)
+                    if isinstance(n, ast.Name))
+        if names & self.fn_stored:
+            return None
+        flag = stmt.targets[0].id
+        is_all = call.func.id == 'all'
+        test = comp.elt
+        if is_all:
+            test = ast.UnaryOp(op=ast.Not(), operand=test)
+        if gen.ifs:
+            test = ast.BoolOp(op=ast.And(), values=list(gen.ifs) + [test])
+        init = ast.Assign(targets=[ast.Name(id=flag, ctx=ast.Store())],
+                          value=ast.Constant(value=is_all))
+        setf = ast.Assign(targets=[ast.Name(id=flag, ctx=ast.Store())],
+                          value=ast.Constant(value=not is_all))
+        inner = ast.If(test=test, body=[setf, ast.Break()], orelse=[])
+        for node in ast.walk(gen.target):
+            if isinstance(node, ast.Name):
+                node.ctx = ast.Store()
+        loop = ast.For(target=gen.target, iter=gen.iter, body=[inner],
+                       orelse=[])
+        for new in (init, loop):
+            for node in ast.walk(new):
+                if not hasattr(node, 'lineno'):
+                    ast.copy_location(node, stmt)
+        loop._desugared = call.func.id
+        return [init, loop]
+
+    @staticmethod
+    def _is_quantifier(call):
+        return isinstance(call, ast.Call) and \
+            isinstance(call.func, ast.Name) and \
+            call.func.id in ('all', 'any') and len(call.args) == 1 and \
+            not call.keywords and \
+            isinstance(call.args[0], (ast.GeneratorExp, ast.ListComp)) and \
+            len(call.args[0].generators) == 1 and \
+            not call.args[0].generators[0].is_async
+
     def desugar_quantifier(self, stmt):
         """return all(E for x in IT [if C])  ->
              for x in IT: if [C and] not E: return False
@@ -510,6 +584,16 @@ class Inliner(object):
                 out = []
                 for part in parts:
                     out.extend(self.stmt(caller, part, stack))
+                return out
+        if isinstance(stmt, (ast.Assign, ast.If)):
+            parts = self.desugar_flag(stmt)
+            if parts is not None:
+                out = []
+                for part in parts[:-1] if isinstance(stmt, ast.If) \
+                        else parts:
+                    out.extend(self.stmt(caller, part, stack))
+                if isinstance(stmt, ast.If):
+                    out.extend(self.stmt(caller, parts[-1], stack))
                 return out
         # recurse into compound statements first
         for field in ('body', 'orelse', 'finalbody'):
